@@ -138,7 +138,9 @@ class Screen(_raw_display_base.Screen):
         applications.
         """
         self.signal_handler_setter(signal.SIGTSTP, self._prev_sigtstp_handler or signal.SIG_DFL)
-        self.signal_handler_setter(signal.SIGCONT, self._prev_sigcont_handler or signal.SIG_DFL)
+        if self._prev_sigcont_handler is not None:
+            # only _sigtstp_handler() replaces the SIGCONT handler: leave the application's alone otherwise
+            self.signal_handler_setter(signal.SIGCONT, self._prev_sigcont_handler)
         self.signal_handler_setter(signal.SIGWINCH, self._prev_sigwinch_handler or signal.SIG_DFL)
 
     def _mouse_tracking(self, enable: bool) -> None:
